@@ -237,7 +237,7 @@ def r11_5(run):
             if n.kind != 'stmt' or not isinstance(n.ast, ast.Assign):
                 continue
             v = n.ast.value
-            calls = [c for c in ast.walk(v) if isinstance(c, ast.Call) and callee_attr(c) == 'get' and dotted(receiver(c)) in ('defaults', 'self._defaults', "self.__dict__['_defaults']")
+            calls = [c for c in ast.walk(v) if isinstance(c, ast.Call) and callee_attr(c) == 'get' and 'defaults' in (dotted(receiver(c)) or src(receiver(c)))
                      and len(c.args) == 2 and dotted(c.args[1]) == 'DEFAULT_VALUE']
             if not calls:
                 continue
